@@ -14,7 +14,7 @@ from gen import hygiene as gen_hyg  # noqa: E402
 from gen import routing as gen_routing  # noqa: E402
 from gen import replies as gen_replies  # noqa: E402
 
-KRATE = "svx_renamed"
+KRATE = "svx2_Renamed"      # a digit next to a letter and an upper-case letter: the alias must be used exactly as the manifest spells it
 NOTE = ("(1) a generic contract and an interface with an associated type built with every single letter and a set of plain CamelCase words as "
         "the parameter name, run and required to behave the same; (2) routing programs (all kinds, interfaces, executor/querier/instantiate "
         "helpers, multitest impl) and reply programs (every routing arm incl. the pass-through ones, builders) rebuilt with the framework imported "
